@@ -3,9 +3,10 @@
 # Applies a seeded change to /repo, runs the quick checks of the given properties
 # (seed 1 and seed 2), and undoes the change straight afterwards.
 PATCH=$(readlink -f "$1"); shift
-cd /verif
-git -C /repo apply "$PATCH" || { echo "patch does not apply to /repo"; exit 2; }
-trap 'git -C /repo checkout -- . ; git -C /repo clean -fdq' EXIT
+cd "${SEED_VERIF:-/verif}"
+REPO="${VERIF_REPO:-/repo}"
+git -C "$REPO" apply "$PATCH" || { echo "patch does not apply to /repo"; exit 2; }
+trap 'git -C "$REPO" checkout -- . ; git -C "$REPO" clean -fdq' EXIT
 for p in "$@"; do
   for seed in 1 2; do
     out=$(bin/check $p --seed $seed 2>&1); rc=$?
